@@ -617,6 +617,10 @@ struct CompressedBlob {
     compression_ratio: f32,
     /// Entropy encoding algorithm used (if any)
     entropy_algorithm: EntropyAlgorithm,
+    /// Size of the dictionary-compressed stream that was fed to the entropy
+    /// encoder (the length the entropy decoder has to reproduce)
+    #[cfg_attr(feature = "serde", serde(default))]
+    entropy_input_size: usize,
 }
 
 /// Main DictZipBlobStore implementation
@@ -1166,10 +1170,11 @@ impl BlobStore for DictZipBlobStore {
         let blob = self.storage.get(&id)
             .ok_or_else(|| ZiporaError::invalid_data(format!("Blob {} not found", id)))?;
 
-        // Step 1: Decode entropy encoding (if any)
+        // Step 1: Decode entropy encoding (if any). The entropy stage encoded the
+        // dictionary-compressed stream, so that is the length it has to reproduce.
         let dict_compressed = self.decode_entropy(
             &blob.compressed_data,
-            blob.original_size,
+            blob.entropy_input_size,
             blob.entropy_algorithm
         )?;
 
@@ -1213,11 +1218,18 @@ impl BlobStore for DictZipBlobStore {
                 .map_err(|e| ZiporaError::invalid_data(&format!("Compression failed: {}", e)))?;
 
             // Step 2: Apply entropy encoding (if configured)
+            let entropy_input_size = dict_compressed.len();
             let (final_compressed, entropy_algorithm) = if self.config.entropy_algorithm != EntropyAlgorithm::None {
                 let entropy_encoded = self.apply_entropy_encoding(&dict_compressed)?;
 
-                // Check if entropy encoding provides benefit
-                if self.check_compression_ratio(&dict_compressed, &entropy_encoded) {
+                // Check if entropy encoding provides benefit and really decodes back
+                // to the dictionary-compressed stream (a record must never be stored
+                // in a form that get() cannot invert)
+                let decodes_back = self
+                    .decode_entropy(&entropy_encoded, dict_compressed.len(), self.config.entropy_algorithm)
+                    .map(|decoded| decoded == dict_compressed)
+                    .unwrap_or(false);
+                if decodes_back && self.check_compression_ratio(&dict_compressed, &entropy_encoded) {
                     (entropy_encoded, self.config.entropy_algorithm)
                 } else {
                     // Entropy encoding didn't help, fall back to dict-only
@@ -1241,6 +1253,7 @@ impl BlobStore for DictZipBlobStore {
                     is_compressed: true,
                     compression_ratio,
                     entropy_algorithm,
+                    entropy_input_size,
                 }
             } else {
                 // Store uncompressed if compression doesn't help
@@ -1250,6 +1263,7 @@ impl BlobStore for DictZipBlobStore {
                     is_compressed: false,
                     compression_ratio: 1.0,
                     entropy_algorithm: EntropyAlgorithm::None,
+                    entropy_input_size: original_size,
                 }
             }
         } else {
@@ -1260,6 +1274,7 @@ impl BlobStore for DictZipBlobStore {
                 is_compressed: false,
                 compression_ratio: 1.0,
                 entropy_algorithm: EntropyAlgorithm::None,
+                entropy_input_size: original_size,
             }
         };
 
